@@ -4,12 +4,26 @@ domains (harness/domall{1,2,3}.cpp, one --mode per domain) and a python oracle r
 them on sampled concrete stores (gen/domhist.py, gen/domall_extra.py) and checks every
 answer.  There is no model to compare with: the oracle is applied to every case.
 
+What is checked per property
+  C03  at(v) contains the value, exported constraints hold, entails true => holds, not
+       bottom while a store exists, after every operation of a general history;
+  C04  leq true => stores of the left are inside the right's printed intervals and exported
+       constraints; join/meet results against the stores; reflexivity, bottom/top cases;
+  C05  every step of a widening chain is sound and the chain stabilises (interval-shaped
+       chains of checks/domcommon.py with its bound, relational chains with
+       domall_extra.chain_bound), plus general histories with widening/narrowing;
+  C16  copy-heavy histories incl. the wrappers abstract_domain / abstract_domain_ref around
+       zones: every answer sound; the same history with normalize()/minimize()/queries
+       injected must give the same answers; the wrappers must answer like the bare domain.
+An abort (CRAB_ERROR, crash) on a history of the searched fragment is a hit as well.
+
 A hit is shrunk (delta debugging against the real code, the class of the oracle message
-kept fixed), then matched against known_findings.json (entries with
-stream = "search-<domain>" or "search-*": `line_regex` is matched against the *shrunk*
-history, the optional `witness_regex` against the oracle message); what matches is
-reported as KNOWN-FINDING, anything else as a VIOLATION with the failing input."""
-import os, re, sys, time, random, json
+kept fixed), then matched against known_findings.json (entries whose `stream` is
+"search-<domain>" or "search-*": `line_regex` is matched against the *shrunk* history,
+the optional `witness_regex` against the oracle message); what matches is reported as
+KNOWN-FINDING, anything else as a VIOLATION with the failing input."""
+import os, re, sys, time, random, json, zlib
+from concurrent.futures import ThreadPoolExecutor
 _V = os.path.dirname(os.path.dirname(os.path.abspath(__file__)))
 for _p in ("bin", "gen", "checks"):
     if os.path.join(_V, _p) not in sys.path:
@@ -17,7 +31,8 @@ for _p in ("bin", "gen", "checks"):
 import vlib, domhist, domcommon
 import domall_extra as X
 
-# name, translation unit, relational?, k (dimension factor for the chain bound), operations never sent
+# name, translation unit, relational?, k = dimension factor of the chain bound (ghost
+# variables), asc_widen = widening only defined on ascending arguments
 DOMAINS = [
     dict(name="zones", tu="domall1", rel=True),
     dict(name="zones-safe", tu="domall1", rel=True),
@@ -47,22 +62,31 @@ DOMAINS = [
     dict(name="pow-zones", tu="domall3", rel=True),
 ]
 EXCLUDED = {
-    "wrapped_interval_domain": "machine-integer semantics (wrap-around at the bit width): not comparable with the mathematical-integer oracle; covered by C13",
+    "wrapped_interval_domain": "machine-integer semantics (wrap-around at the bit width): not comparable with the mathematical-integer oracle on this fragment; covered by C13",
     "boxes_domain": "needs the LDD library (not built in this tree)",
-    "apron_domain / elina_domain / pplite": "external libraries not built in this tree",
-    "array_* / region_domain": "not numerical-only domains: searched by C14/C15",
+    "apron_domain / elina_domain (incl. pplite)": "external libraries not built in this tree",
+    "array_smashing / array_adaptive / region_domain": "not numerical-only: searched by C14/C15",
+    "bitwise / unsigned / cast operators, boolean operations": "never generated (concrete meaning depends on the bit width)",
 }
 CHECKS = {"C03": ("at", "entails", "csts", "bot"), "C04": ("leq", "at", "bot", "csts"),
           "C05": ("at", "csts", "bot", "leq"), "C16": ("at", "entails", "csts", "bot", "leq")}
 MAX_SHRINK_PER_BUCKET = 2
-MAX_BUCKETS_SHRUNK = 12
+MAX_SHRUNK = 12
+NWORKERS = 4
 
 
 def sizes(tier, prop):
+    """histories per domain"""
     if tier == "quick":
-        return {"C03": 110, "C04": 110, "C05": 60, "C16": 70}[prop]
-    return {"C03": 6000, "C04": 5000, "C05": 2500, "C16": 3000}[prop]
+        return {"C03": 260, "C04": 260, "C05": 60, "C16": 130}[prop]
+    return {"C03": 5000, "C04": 4000, "C05": 1200, "C16": 2500}[prop]
 
+
+def zlib_id(s):
+    return zlib.crc32(s.encode()) % 1000
+
+
+# ---------------------------------------------------------------- running the harness
 
 def norm_msg(out_lines):
     """the CRAB_ERROR / assertion text of an aborted run, without process-specific parts"""
@@ -106,22 +130,33 @@ def run_cases(exe, mode, lines, path, timeout=900):
     return [res.get(i, "MISSING") for i in range(n)]
 
 
+def is_abort(a):
+    return a.startswith("ABORT") or a == "MISSING"
+
+
+def abort_class(ans):
+    return re.sub(r"\bv\d+\b", "v_", ans[6:])[:200]
+
+
 def abort_oracle(line, ans):
     if ans.startswith("ABORT"):
         return "step 0 (abort) of: %s: the domain aborted on an input inside the searched fragment: %s" % (line, abort_class(ans))
     return None
 
 
-def abort_class(ans):
-    t = ans[6:]
-    t = re.sub(r"\bv\d+\b", "v_", t)
-    return t[:200]
+def kind_of(w):
+    m = re.search(r"the domain aborted on an input inside the searched fragment: (.*)$", w)
+    if m:
+        return "abort:" + m.group(1)
+    return X.kind_of(w)
 
+
+# ---------------------------------------------------------------- shrinking
 
 def shrink(exe, mode, line, oracle, kind, scratch, budget=40):
     """greedy delta debugging on the operation list: drop chunks, then single operations,
     as long as the real code still produces an answer the oracle rejects in the same
-    class.  `forget` immediately before `rename` is kept (precondition of rename)."""
+    class.  `forget` immediately before `rename`/`expand` is kept (their precondition)."""
     ops = line.split(" ; ")
     head, body = ops[0], ops[1:]
     best_w = None
@@ -131,7 +166,10 @@ def shrink(exe, mode, line, oracle, kind, scratch, budget=40):
         i = 0
         while i < len(body):
             j = min(len(body), i + size)
-            if not (j < len(body) and body[j].startswith("rename") and body[j - 1].startswith("forget")):
+            guarded = j < len(body) and body[j - 1].startswith("forget") and body[j].split()[0] in ("rename", "expand")
+            guarded = guarded or (j < len(body) and body[j - 1].startswith("assume") and " ne " in body[j - 1] and
+                                  body[j].startswith("arith") and body[j].split()[2] in ("sdiv", "srem"))
+            if not guarded:
                 out.append(body[:i] + body[j:])
             i += size
         return out
@@ -159,7 +197,7 @@ def shrink(exe, mode, line, oracle, kind, scratch, budget=40):
                 break
         if hit:
             body, best_w = hit
-            while len(body) > 1 and body[-1] == "q_at 0" and body[-2] == "q_at 0" and len(body) > 2 and body[-3] == "q_at 0":
+            while len(body) > 3 and body[-3:] == ["q_at 0"] * 3:
                 body = body[:-1]
             size = max(1, min(size, len(body) // 2))
         elif size > 1:
@@ -169,19 +207,12 @@ def shrink(exe, mode, line, oracle, kind, scratch, budget=40):
     return head + " ; " + " ; ".join(body), best_w
 
 
-def kind_of(w):
-    m = re.search(r"the domain aborted on an input inside the searched fragment: (.*)$", w)
-    if m:
-        return "abort:" + m.group(1)
-    return X.kind_of(w)
-
-
 def match_known(known, prop, stream, line, w):
     for k in known:
         if k.get("property") != prop:
             continue
         s = k.get("stream", "")
-        if not (s == stream or s == "search-*" or (s.endswith("*") and stream.startswith(s[:-1]))):
+        if not (s == stream or (s.endswith("*") and stream.startswith(s[:-1]))):
             continue
         if not re.search(k.get("line_regex", ""), line):
             continue
@@ -191,54 +222,173 @@ def match_known(known, prop, stream, line, w):
     return None
 
 
-def examine(rep, prop, dom, exe, stream, lines, answers, oracle, st, known, shrink_ok=True, report_aborts=True):
+# ---------------------------------------------------------------- examining one stream of one domain
+
+class DomResult:
+    def __init__(self, name):
+        self.st = {"cases": 0, "oracle_violations": 0, "aborts": 0, "distinct_nontrivial": 0}
+        self.violations = []      # (tag, text, witness?)
+        self.known = []
+        self.nshrunk = 0
+
+
+def examine(res, prop, dom, exe, stream, sub, lines, answers, oracle, known, shrink_ok=True):
     """oracle on every case; bucket the hits by (class of message, operation of the failing
-    step); shrink a few per bucket; report"""
+    step); shrink a few per bucket; record violations / known findings in res"""
+    st = res.st
     d = os.path.join(vlib.VERIF, "out", prop)
     buckets = {}
-    for i, (l, a) in enumerate(zip(lines, answers)):
-        if a.startswith("ABORT") or a == "MISSING":
+    st["cases"] += len(lines)
+    nontriv = 0
+    for l, a in zip(lines, answers):
+        if is_abort(a):
             st["aborts"] += 1
-            c = abort_class(a)
+            c = abort_class(a) if a.startswith("ABORT") else "no answer"
             st.setdefault("abort_classes", {})
             st["abort_classes"][c] = st["abort_classes"].get(c, 0) + 1
-            if report_aborts:
-                buckets.setdefault(("abort:" + c, "abort"), []).append((l, a, abort_oracle(l, a)))
+            buckets.setdefault(("abort:" + c, "abort"), []).append((l, a, abort_oracle(l, a) or "step 0 (abort) of: %s: no answer" % l))
             continue
         try:
             w = oracle(l, a)
         except Exception as e:
             w = None
             st["oracle_errors"] = st.get("oracle_errors", 0) + 1
-            if "oracle_error_sample" not in st:
-                st["oracle_error_sample"] = "%r on %s -> %s" % (e, l, a[:200])
+            st.setdefault("oracle_error_sample", "%r on %s" % (e, l[:300]))
         if w:
             st["oracle_violations"] += 1
             buckets.setdefault((kind_of(w), X.step_of(w)), []).append((l, a, w))
-    nshrunk = 0
+        elif domhist.nontrivial(l, a):
+            nontriv += 1
+    st["distinct_nontrivial"] += nontriv
     for (kind, step), hits in sorted(buckets.items()):
         reported = set()
         for (l, a, w) in hits[:MAX_SHRINK_PER_BUCKET]:
             l2, w2 = l, w
-            if shrink_ok and kind != "nonstab" and nshrunk < MAX_BUCKETS_SHRUNK * MAX_SHRINK_PER_BUCKET:
-                nshrunk += 1
-                l2, w2 = shrink(exe, dom["name"], l, (abort_oracle if kind.startswith("abort:") else oracle), kind, os.path.join(d, stream + ".shrink"))
+            if shrink_ok and kind != "nonstab" and res.nshrunk < MAX_SHRUNK:
+                res.nshrunk += 1
+                l2, w2 = shrink(exe, dom["name"], l, (abort_oracle if kind.startswith("abort:") else oracle), kind,
+                                os.path.join(d, "%s-%s.shrink" % (stream, sub)))
                 w2 = w2 or w
             if l2 in reported:
                 continue
             reported.add(l2)
             kn = match_known(known, prop, stream, l2, w2)
             if kn:
-                rep.known_finding("%s [%s, %d hit(s) of this class in the stream] input: %s" % (kn["what"], stream, len(hits), l2))
+                res.known.append("%s [%s, %d hit(s) of this class] input: %s" % (kn["what"], stream, len(hits), l2))
                 st["known"] = st.get("known", 0) + 1
             else:
-                tag = "%s-%s-%s-%d" % (stream, kind, re.sub(r"\W+", "_", step), len(reported))
+                tag = "%s-%s-%s-%s-%d" % (stream, sub, re.sub(r"\W+", "_", kind)[:40], re.sub(r"\W+", "_", step), len(reported))
                 text = ("FAILING INPUT (property oracle on the answer of the real %s domain, no model involved): %s\n"
-                        "domain=%s stream=%s class=%s hits-of-this-class=%d\nshrunk history: %s\noriginal history: %s\n"
-                        "replay: build/impl-*/h-%s-* --mode=%s <file with the history>\n"
-                        % (dom["name"], w2, dom["name"], stream, kind, len(hits), l2, l, dom["tu"], dom["name"]))
-                rep.violation(tag, text, True)
-    return buckets
+                        "domain=%s stream=%s/%s class=%s hits-of-this-class=%d\nshrunk history: %s\noriginal history: %s\n"
+                        "replay: python3 checks/domall.py %s --dom %s --replay '<history>'\n"
+                        % (dom["name"], w2, dom["name"], stream, sub, kind, len(hits), l2, l, prop, dom["name"]))
+                res.violations.append((tag, text, True))
+
+
+def canon_answer(a):
+    """answers that only differ in how `false` / `true` is written are equal"""
+    if a.startswith("{"):
+        cs = [c for c in a[1:-1].split(",") if c]
+        out = []
+        for c in cs:
+            p = c.split(":")
+            if len(p) == 3 and p[1] == "":
+                k = int(p[2])
+                holds = {"eq": k == 0, "ne": k != 0, "le": k <= 0, "lt": k < 0}[p[0]]
+                if not holds:
+                    return "{false}"
+                continue
+            out.append(c)
+        return "{" + ",".join(sorted(out)) + "}"
+    return a
+
+
+def diff_oracle_factory(expected):
+    """oracle for the differential C16 checks: `expected` maps a history to the list of
+    (index into the answers, expected answer)"""
+    def orc(line, ans):
+        exp = expected.get(line)
+        if exp is None or is_abort(ans):
+            return None
+        parts = ans.split(" ; ")
+        ops = line.split(" ; ")[1:]
+        for i, e in exp:
+            if i < len(parts) and canon_answer(parts[i]) != canon_answer(e):
+                return ("step %d (%s) of: %s: the answer %s differs from %s given by the reference run (%s)"
+                        % (i + 1, ops[i] if i < len(ops) else "?", line, parts[i], e, expected["__what__"]))
+        return None
+    return orc
+
+
+def run_domain(prop, tier, seed, dom, exe, n, known, shrink_ok, base_answers):
+    name = dom["name"]
+    stream = "search-" + name
+    res = DomResult(name)
+    st = res.st
+    outd = os.path.join(vlib.VERIF, "out", prop)
+    checks = CHECKS[prop]
+    k = dom.get("k", 1)
+    hopts = dict(drop=dom.get("drop", ()), asc_widen=dom.get("asc_widen", False), rel=dom["rel"])
+    orc = lambda l, a: X.oracle_ext(l, a, None, checks)
+    # corpus (minimal histories of past findings) first, then the structured random stream
+    lines = [X.ascending_widen(l) if dom.get("asc_widen") else l for l in X.CORPUS]
+    lines += X.histories(seed + 1000 + zlib_id(prop), prop, n, **hopts)
+    if tier != "quick" and not dom["rel"]:
+        lines += X.histories(seed + 2000, prop, n // 4, big=True, **hopts)   # arbitrary-precision bounds
+    answers = run_cases(exe, name, lines, os.path.join(outd, stream + ".cases"))
+    examine(res, prop, dom, exe, stream, "hist", lines, answers, orc, known, shrink_ok)
+    if prop == "C16":
+        base_answers[name] = (lines, answers)
+        # (iii) normalize()/minimize()/queries injected: sound, and same answers as without
+        rng = random.Random(seed + 16)
+        inj = [X.with_normalize(l, rng) for l in lines]
+        il = [x[0] for x in inj]
+        ans2 = run_cases(exe, name, il, os.path.join(outd, stream + "-inj.cases"))
+        examine(res, prop, dom, exe, stream, "inj", il, ans2, orc, known, shrink_ok)
+        expected = {"__what__": "the same history without the injected normalize()/minimize()/query calls"}
+        for (l, a), (l2, keep) in zip(zip(lines, answers), inj):
+            if not is_abort(a):
+                expected[l2] = list(zip(keep, a.split(" ; ")))
+        examine(res, prop, dom, exe, stream, "inj-diff", il, ans2, diff_oracle_factory(expected), known, shrink_ok=False)
+        w = dom.get("wrapper_of")
+        if w and w in base_answers:
+            bl, ba = base_answers[w]
+            expected = {"__what__": "the bare %s domain on the same history" % w}
+            for l, b in zip(bl, ba):
+                if not is_abort(b):
+                    expected[l] = list(enumerate(b.split(" ; ")))
+            examine(res, prop, dom, exe, stream, "wrapper-diff", lines, answers, diff_oracle_factory(expected), known, shrink_ok=False)
+    if prop == "C05":
+        # interval-shaped chains of the modelled domain, with its bound
+        ch = domcommon.widen_chains(seed + 5, max(10, n // 2))
+        # relational chains, long enough to exceed the bound if the widening does not stabilise
+        steps = 110 if tier == "quick" else 220
+        rc = X.rel_chains(seed + 6, max(5, n // 6), steps, maxvars=(2 if k > 1 else 3))
+        if dom.get("asc_widen"):
+            ch = [X.ascending_widen(l) for l in ch]
+            rc = [X.ascending_widen(l) for l in rc]
+        ans = run_cases(exe, name, ch, os.path.join(outd, stream + "-chains.cases"))
+        examine(res, prop, dom, exe, stream, "chains", ch, ans, lambda l, a: chain_oracle_k(l, a, k), known, shrink_ok)
+        ans = run_cases(exe, name, rc, os.path.join(outd, stream + "-relchains.cases"))
+        st["chain_steps"] = steps
+        examine(res, prop, dom, exe, stream, "relchains", rc, ans, lambda l, a: X.rel_chain_oracle(l, a, None, k), known, shrink_ok)
+    return res
+
+
+def chain_oracle_k(line, ans, k):
+    if is_abort(ans):
+        return None
+    ans = X.drop_ghost_csts(ans)
+    w = domcommon.chain_oracle(line, ans)
+    if w and "second argument of a widening" in w:
+        # completeness of the inclusion test, not soundness of the widening (the result is
+        # checked on the stores): not required from the un-modelled domains
+        return None
+    if w and "non-stationary" in w and k > 1:
+        return X.rel_chain_oracle(line, ans, None, k, sound=False)    # bound with the ghost dimensions
+    if w and not w.startswith("step"):
+        w = "step 0 (widen) of: " + w
+    return w
 
 
 def search(rep, tier, seed, prop, only=None, n=None, shrink_ok=True):
@@ -248,105 +398,49 @@ def search(rep, tier, seed, prop, only=None, n=None, shrink_ok=True):
     built = vlib.build_harnesses(tus)
     known = [k for k in vlib.load_known().get("findings", []) if str(k.get("stream", "")).startswith("search-")]
     n = n or sizes(tier, prop)
-    outd = os.path.join(vlib.VERIF, "out", prop)
-    os.makedirs(outd, exist_ok=True)
-    rep.cov.setdefault("search", {})["excluded_domains"] = EXCLUDED
-    rep.cov["search"]["domains"] = [d["name"] for d in doms]
-    checks = CHECKS[prop]
+    os.makedirs(os.path.join(vlib.VERIF, "out", prop), exist_ok=True)
+    info = rep.cov.setdefault("search", {})
+    info["excluded"] = EXCLUDED
+    info["domains"] = [d["name"] for d in doms]
+    info["histories_per_domain"] = n
+    info["rule"] = ("per domain: corpus of minimal past findings, then seeded random histories over the fragment with unambiguous "
+                    "concrete meaning (linear assign, + - *, sdiv/srem by non-zero operands, assume, forget/project/expand/rename under "
+                    "their preconditions, join/meet/widen/narrow, copy, normalize/minimize, select, weak assign); every second history of a "
+                    "relational domain is in the octagon language; oracle = <=48 sampled stores per register pushed through the same "
+                    "operations; non-trivial as in C03")
     base_answers = {}
-    for dom in doms:
-        name = dom["name"]
-        stream = "search-" + name
-        st = {"cases": 0, "oracle_violations": 0, "aborts": 0}
-        rep.cov["streams"][stream] = st
-        exe, err = built[dom["tu"]]
-        if err:
-            rep.violation(stream + "-build", "witness search %s: %s" % (stream, err), False)
-            continue
-        big = False
-        hopts = dict(drop=dom.get("drop", ()), asc_widen=dom.get("asc_widen", False), rel=dom["rel"])
-        lines = X.histories(seed + 1000 + (zlib_id(prop)), prop, n, big=big, **hopts)
-        if tier != "quick" and not dom["rel"]:
-            lines += X.histories(seed + 2000, prop, n // 4, big=True, **hopts)      # non-relational: arbitrary-precision bounds
-        orc = lambda l, a: X.oracle_ext(l, a, None, checks)
-        answers = run_cases(exe, name, lines, os.path.join(outd, stream + ".cases"))
-        st["cases"] += len(lines)
-        examine(rep, prop, dom, exe, stream, lines, answers, orc, st, known, shrink_ok)
-        if prop == "C16":
-            base_answers[name] = (lines, answers)
-            # (iii) normalize()/minimize()/queries injected: every sound answer stays sound, and is
-            # compared with the un-injected run
-            rng = random.Random(seed + 16)
-            inj = [X.with_normalize(l, rng) for l in lines]
-            ans2 = run_cases(exe, name, [x[0] for x in inj], os.path.join(outd, stream + "-inj.cases"))
-            st["cases"] += len(inj)
-            examine(rep, prop, dom, exe, stream, [x[0] for x in inj], ans2, orc, st, known, shrink_ok)
-            diff = 0
-            for (l, a), (l2, keep), a2 in zip(zip(lines, answers), inj, ans2):
-                if a.startswith("ABORT") or a2.startswith("ABORT") or "MISSING" in (a, a2):
-                    continue
-                p2 = a2.split(" ; ")
-                if [p2[i] for i in keep if i < len(p2)] != a.split(" ; "):
-                    diff += 1
-                    st.setdefault("normalize_changes_answers_sample", l2)
-            st["normalize_changes_answers"] = diff
-            w = dom.get("wrapper_of")
-            if w and w in base_answers:
-                bl, ba = base_answers[w]
-                nd = 0
-                for l, a, b in zip(lines, answers, ba):
-                    if a != b and not a.startswith("ABORT") and not b.startswith("ABORT"):
-                        nd += 1
-                        st.setdefault("wrapper_differs_sample", l)
-                st["wrapper_differs_from_bare"] = nd
-        if prop == "C05":
-            # interval-shaped chains of the modelled domain, with its bound
-            ch = domcommon.widen_chains(seed + 5, max(10, n // 3))
-            if dom.get("asc_widen"):
-                ch = [X.ascending_widen(l) for l in ch]
-            ans = run_cases(exe, name, ch, os.path.join(outd, stream + "-chains.cases"))
-            st["cases"] += len(ch)
-            k = dom.get("k", 1)
-            examine(rep, prop, dom, exe, stream, ch, ans, lambda l, a: chain_oracle_k(l, a, k), st, known, shrink_ok)
-            # relational chains, long enough to exceed the bound if the widening does not stabilise
-            steps = 130 if tier == "quick" else 220
-            rc = X.rel_chains(seed + 6, max(6, n // 6), steps, maxvars=(2 if k > 1 else 3))
-            if dom.get("asc_widen"):
-                rc = [X.ascending_widen(l) for l in rc]
-            ans = run_cases(exe, name, rc, os.path.join(outd, stream + "-relchains.cases"))
-            st["cases"] += len(rc)
-            st["chain_steps"] = steps
-            examine(rep, prop, dom, exe, stream, rc, ans, lambda l, a: X.rel_chain_oracle(l, a, None, k), st, known, shrink_ok)
-        rep.cov["evaluations"] += st["cases"]
-    rep.cov["search"]["wall_s"] = round(time.time() - t0, 1)
-
-
-def chain_oracle_k(line, ans, k):
-    if ans.startswith("ABORT") or ans == "MISSING":
-        return None
-    w = domcommon.chain_oracle(line, ans)
-    if w and "second argument of a widening" in w:
-        # completeness of the inclusion test, not soundness of the widening (the result is
-        # checked on the stores): not required from the un-modelled domains
-        return None
-    if w and "non-stationary" in w and k > 1:
-        # fixed-tvpi keeps ghost dimensions x/2, x/3: re-evaluate with its own bound
-        return X.rel_chain_oracle_interval(line, ans, k) if hasattr(X, "rel_chain_oracle_interval") else None
-    if w and not w.startswith("step"):
-        w = "step 0 (widen) of: " + w
-    return w
-
-
-def zlib_id(s):
-    import zlib
-    return zlib.crc32(s.encode()) % 1000
+    results = {}
+    bad = [d for d in doms if built[d["tu"]][1]]
+    for d in bad:
+        rep.cov["streams"]["search-" + d["name"]] = {"cases": 0, "oracle_violations": 0, "aborts": 0}
+    for tu in sorted(set(d["tu"] for d in bad)):
+        rep.violation("search-%s-build" % tu, "witness search: %s" % built[tu][1], False)
+    good = [d for d in doms if not built[d["tu"]][1]]
+    # wrappers need the answers of the bare domain: bare domains first
+    first = [d for d in good if not d.get("wrapper_of")]
+    second = [d for d in good if d.get("wrapper_of")]
+    for group in (first, second):
+        with ThreadPoolExecutor(NWORKERS) as ex:
+            futs = {d["name"]: ex.submit(run_domain, prop, tier, seed, d, built[d["tu"]][0], n, known, shrink_ok, base_answers) for d in group}
+            for name, f in futs.items():
+                results[name] = f.result()
+    for d in good:
+        r = results[d["name"]]
+        rep.cov["streams"]["search-" + d["name"]] = r.st
+        rep.cov["evaluations"] += r.st["cases"]
+        rep.cov["distinct_nontrivial"] = rep.cov.get("distinct_nontrivial", 0) + r.st["distinct_nontrivial"]
+        for kf in r.known:
+            rep.known_finding(kf)
+        for tag, text, wit in r.violations:
+            rep.violation(tag, text, wit)
+    info["wall_s"] = round(time.time() - t0, 1)
 
 
 class _Rep:
     """stand-alone report for the command line"""
     def __init__(self, prop):
         self.prop = prop
-        self.cov = {"streams": {}, "evaluations": 0}
+        self.cov = {"streams": {}, "evaluations": 0, "distinct_nontrivial": 0}
         self.v = []; self.k = []
 
     def violation(self, tag, text, w):
@@ -374,9 +468,13 @@ if __name__ == "__main__":
         vlib.BUILD = os.path.join(vlib.VERIF, "build", "domall-scratch")
     if a.replay:
         line = open(a.replay).read().strip().split("\n")[0] if os.path.exists(a.replay) else a.replay
+        m = re.search(r"(hist \d+ \d+ ;.*)$", line)
+        line = m.group(1) if m else line
         for dn in a.dom.split(","):
             dom = [d for d in DOMAINS if d["name"] == dn][0]
             exe, err = vlib.build_harness(dom["tu"])
+            if err:
+                print(err); sys.exit(1)
             sc = os.path.join(vlib.VERIF, "out", "replay-%s.cases" % dn)
             orc = lambda l, x: (X.rel_chain_oracle(l, x, None, dom.get("k", 1)) if a.prop == "C05" and "q_leq 0 2" in l else X.oracle_ext(l, x, None, CHECKS[a.prop]))
             ans = run_cases(exe, dn, [line], sc)[0]
@@ -410,4 +508,4 @@ if __name__ == "__main__":
     for tag, text in rep.v:
         print("VIOLATION", tag)
         print("   " + "\n   ".join(text.split("\n")[:3]))
-    print("wall %.1f s, %d violations, %d known" % (time.time() - t, len(rep.v), len(rep.k)))
+    print("wall %.1f s, %d evaluations, %d non-trivial, %d violations, %d known" % (time.time() - t, rep.cov["evaluations"], rep.cov["distinct_nontrivial"], len(rep.v), len(rep.k)))
